@@ -119,7 +119,21 @@ Laws == /\ \A a \in Vecs : \A n \in -1..(MaxLen + 1) : Spec("take", a, <<>>, n, 
         /\ \A a \in Vecs : Spec("reverse", Spec("reverse", a, <<>>, 0, "").s, <<>>, 0, "").s = a
         /\ \A a \in Vecs : \A p \in Preds : (Spec("any_of", a, <<>>, 0, p).i = 1) = (Spec("filter", a, <<>>, 0, p).s # <<>>)
 
-Export == ndJsonSerialize(IOEnv.OUT, SetToSeq(CasesVec)) /\ ndJsonSerialize(IOEnv.OUT2, SetToSeq(CasesScalar))
+\* ---------------------------------------------------------------- containers of strings: join and to_string as text
+\* join(c, d): the elements' to_string separated by d - a separator between ANY two neighbours, also after an element whose text is empty
+RECURSIVE JoinStrs(_, _, _)
+JoinStrs(s, d, i) == IF i > Len(s) THEN "" ELSE (IF i > 1 THEN d ELSE "") \o s[i] \o JoinStrs(s, d, i + 1)
+StrVals == {"", "a", "bc"}
+StrVecs == UNION {[1..n -> StrVals] : n \in 0..MaxLen}
+Delims == {"-", "", ", "}
+CasesStr == {[fn |-> "join", a |-> a, d |-> d, exp |-> JoinStrs(a, d, 1)] : a \in StrVecs, d \in Delims}
+            \cup {[fn |-> "to_string", a |-> a, d |-> "", exp |-> "[" \o JoinStrs(a, ", ", 1) \o "]"] : a \in StrVecs}
+            \cup {[fn |-> "join_ints", a |-> [k \in 1..Len(v) |-> ToString(v[k])], d |-> d, exp |-> JoinStrs([k \in 1..Len(v) |-> ToString(v[k])], d, 1)] : v \in Vecs, d \in Delims}
+\* law: joining with the empty delimiter concatenates, and the number of separators is Len - 1 whatever the elements are
+JoinLaws == \A a \in StrVecs : /\ JoinStrs(a, "", 1) = JoinStrs(SelectSeq(a, LAMBDA x : x # ""), "", 1)
+                               /\ (Len(a) > 0 => JoinStrs(a, "-", 1) = a[1] \o JoinStrs([k \in 1..(Len(a) - 1) |-> "-" \o a[k + 1]], "", 1))
+
+Export == ndJsonSerialize(IOEnv.OUT, SetToSeq(CasesVec)) /\ ndJsonSerialize(IOEnv.OUT2, SetToSeq(CasesScalar)) /\ ndJsonSerialize(IOEnv.OUT3, SetToSeq(CasesStr))
 
 VARIABLE dummy
 Init == dummy = 0
